@@ -224,7 +224,30 @@ type c04World struct {
 
 func (w *c04World) abort(format string, a ...any) { panic(c04Abort{fmt.Sprintf(format, a...)}) }
 
+// which property a violation signature belongs to ("" = both)
+func c04SigProp(sig string) string {
+	for _, p := range []string{"height-lost", "sampled-head-above-unsampled", "checkpoint-drops-height", "height-never-sampled"} {
+		if strings.HasPrefix(sig, p) {
+			return "C04"
+		}
+	}
+	for _, p := range []string{"concurrency-limit", "catchupdone-wrong", "attempt-count-decreased", "worker-silent-exit", "job-vanished", "no-progress", "waitcatchup-blocks"} {
+		if strings.HasPrefix(sig, p) {
+			return "C13"
+		}
+	}
+	return ""
+}
+
 func (w *c04World) violation(sig, desc string) {
+	if p := c04SigProp(sig); p != "" && p != w.r.ID {
+		// the other property's check reports this one; only a worker that is gone makes the history unusable
+		w.r.Count("seen_for_other_property", sig)
+		if sig == "worker-silent-exit" {
+			w.viol = true
+		}
+		return
+	}
 	w.viol = true
 	w.r.Violation(sig, desc, c04Hist{Range: w.hist.Range, Limit: w.hist.Limit, Table: w.hist.Table, Events: append([]c04Intent(nil), w.done...), Final: w.hist.Final})
 }
